@@ -176,6 +176,13 @@ Par ==
         [names |-> {"I", "K"}, blobs |-> {"h2049", "s32"}, dirs |-> {},
          boot |-> {Plain, BS("noemul", 0, TRUE, TRUE, TRUE, 0, 0)},
          hyb |-> {}, scopes |-> {"all"}, prefixes |-> {<<AF("I", "h2049"), AF("K", "s32")>>}, maxent |-> 32, maxfiles |-> 2, links |-> FALSE]
+    [] Profile = "c11p" ->     \* a prepared catalog (initial entry and one section entry, both with a boot info
+                               \* table) taken through reopen generations with edits that move the boot files
+        [names |-> {"A"}, blobs |-> {"x5000"}, dirs |-> {"D"}, boot |-> {},
+         hyb |-> {}, scopes |-> {"iso"},
+         prefixes |-> {<<AF("I", "h2049"), AF("K", "h4096"), AE("I", Iso4Bit), AE("K", BS("noemul", 0, TRUE, TRUE, FALSE, 0, 0))>>,
+                       <<AF("I", "h2049"), AF("K", "h4096"), AE("I", Iso4Bit), AE("K", BS("noemul", 0, TRUE, TRUE, TRUE, 239, 0))>>},
+         maxent |-> 2, maxfiles |-> 3, links |-> FALSE]
     [] Profile = "c12g" ->     \* geometry grid: one add_isohybrid on the canned images
         [names |-> {}, blobs |-> {}, dirs |-> {}, boot |-> {},
          hyb |-> {GridSpec(g, "bios") : g \in Geoms} \cup {GridSpec(g, "efi") : g \in Geoms}
